@@ -1,26 +1,40 @@
 """Unit registry: which assembled Verus files exist and which properties each carries."""
-from units import expr, builder, smallslices, tables, dfa, bindings, elim, regexp
+from units import expr, builder, smallslices, tables, dfa, bindings, elim, regexp, render
 
 REGISTRY = {
     'expr':     lambda repo, sd, canary=False: expr.build(repo, sd, canary=canary),
     'builder':  lambda repo, sd, canary=False: builder.build(repo, sd, canary=canary),
     'classify': lambda repo, sd, canary=False: smallslices.build_classify(repo, sd, canary=canary),
     'escape':   lambda repo, sd, canary=False: smallslices.build_escape(repo, sd, canary=canary),
-    'misc':     lambda repo, sd, canary=False: smallslices.build_misc(repo, sd, canary=canary),
+    'caseconv': lambda repo, sd, canary=False: smallslices.build_caseconv(repo, sd, canary=canary),
+    'split':    lambda repo, sd, canary=False: smallslices.build_split(repo, sd, canary=canary),
+    'rep':      lambda repo, sd, canary=False: smallslices.build_rep(repo, sd, canary=canary),
+    'gates':    lambda repo, sd, canary=False: smallslices.build_gates(repo, sd, canary=canary),
     'tables':   lambda repo, sd, canary=False: tables.build(repo, sd, canary=canary),
     'dfa':      lambda repo, sd, canary=False: dfa.build(repo, sd, kf=False, canary=canary),
     'dfa_kf':   lambda repo, sd, canary=False: dfa.build(repo, sd, kf=True, canary=canary),
     'elim':     lambda repo, sd, canary=False: elim.build(repo, sd, canary=canary),
     'regexp':   lambda repo, sd, canary=False: regexp.build(repo, sd, canary=canary),
+    'render':   lambda repo, sd, canary=False: render.build(repo, sd, canary=canary),
     'trie':     lambda repo, sd, canary=False: dfa.build_trie(repo, sd, canary=canary),
     'wasm':     lambda repo, sd, canary=False: bindings.build_wasm(repo, sd, canary=canary),
     'cli':      lambda repo, sd, canary=False: bindings.build_cli(repo, sd, canary=canary),
 }
 # units whose obligations carry a property (an obligation counts for a property only if its clause is tagged with it)
 PROP_UNITS = {
-    'C01': ['expr', 'elim', 'regexp', 'misc', 'dfa', 'dfa_kf', 'trie'], 'C02': ['expr', 'elim', 'regexp', 'dfa'], 'C03': ['classify', 'misc', 'trie'], 'C04': ['misc', 'regexp'],
-    'C07': ['expr', 'elim', 'regexp', 'builder', 'misc', 'dfa', 'trie', 'cli', 'escape', 'classify'], 'C08': ['misc', 'expr', 'regexp'], 'C09': ['tables', 'classify'],
-    'C10': ['builder', 'misc', 'regexp'], 'C11': ['escape', 'builder'], 'C12': ['cli'], 'C13': ['misc', 'builder'], 'C16': ['expr', 'elim', 'regexp', 'dfa', 'dfa_kf', 'trie'], 'C17': ['wasm'],
+    'C01': ['expr', 'elim', 'regexp', 'caseconv', 'split', 'rep', 'dfa', 'dfa_kf', 'trie'],
+    'C02': ['expr', 'elim', 'regexp', 'dfa', 'gates', 'render'],
+    'C03': ['classify', 'gates', 'trie'],
+    'C04': ['caseconv', 'regexp', 'render'],
+    'C07': ['expr', 'elim', 'regexp', 'builder', 'split', 'caseconv', 'rep', 'gates', 'render', 'dfa', 'trie', 'cli', 'escape', 'classify'],
+    'C08': ['render', 'expr', 'regexp'],
+    'C09': ['tables', 'classify'],
+    'C10': ['builder', 'regexp', 'gates'],
+    'C11': ['escape', 'builder'],
+    'C12': ['cli', 'gates'],
+    'C13': ['rep', 'builder', 'render', 'trie'],
+    'C16': ['expr', 'elim', 'regexp', 'dfa', 'dfa_kf', 'trie', 'render'],
+    'C17': ['wasm'],
 }
 # dfa_kf holds exactly the known-finding clause (its canary would be redundant with dfa's); tables has no function with a context
 NO_CANARY = {'dfa_kf', 'tables'}
